@@ -461,6 +461,36 @@ func genScalar(g *vlib.Rng, edges []*big.Int) *big.Int {
 	return randScalar(g)
 }
 
+// negScalars: the negative integers that `split_exp_sound/_bound` and the `ecmult_*` theorems quantify over as well
+// (Number is a signed big.Int; ECmult's callers pass non-negative numbers, the statements do not assume it): −1, −2,
+// −n, −(n±1), −(2^128±1), −2^128, −(2^256−1), −λ, the negated rounding edges of the λ-split. big.Int.Div (Euclidean)
+// and big.Int.Quo (truncated) differ exactly on negative numerators: these cases pin the rounding of split_exp.
+func negScalars(edges []*big.Int) (out []*big.Int) {
+	for _, e := range edges {
+		if e.Sign() > 0 {
+			out = append(out, new(big.Int).Neg(e))
+		}
+	}
+	return
+}
+
+// negScalar: a negative scalar — negated edge, negated generated scalar, small, or near −k·n/a1b2, −k·n/b1
+func negScalar(g *vlib.Rng, edges []*big.Int) *big.Int {
+	var v *big.Int
+	switch g.Intn(4) {
+	case 0:
+		v = big.NewInt(int64(1 + g.Intn(70)))
+	case 1:
+		v = new(big.Int).Set(edges[g.Intn(len(edges))])
+	default:
+		v = new(big.Int).Set(genScalar(g, edges))
+	}
+	if v.Sign() == 0 {
+		v = big.NewInt(1)
+	}
+	return v.Neg(v)
+}
+
 func groupCases(g *vlib.Rng) {
 	edges := edgeScalars()
 	G := refG
@@ -538,6 +568,12 @@ func groupCases(g *vlib.Rng) {
 			runCase(fmt.Sprintf("wnaf %s %d", intHex(new(big.Int).Neg(lo)), w), "edge-negative")
 		}
 	}
+	for _, e := range negScalars(edges) {
+		runCase("splitexp "+intHex(e), "edge-negative")
+	}
+	for i := 0; i < r.N(120, 6000); i++ {
+		runCase("splitexp "+intHex(negScalar(g, edges)), "gen-negative")
+	}
 	for i := 0; i < r.N(300, 20000); i++ {
 		s := genScalar(g, edges)
 		runCase("splitexp "+intHex(s), "gen")
@@ -578,6 +614,26 @@ func groupCases(g *vlib.Rng) {
 		if i == 2 {
 			r.Sample(map[string]string{"line": fmt.Sprintf("ecmult %s %s %s", jac(g, p, false), intHex(na), intHex(ng))})
 		}
+	}
+	// negative na (ECmult takes a signed Number; the ecmult theorems are stated for every integer na)
+	negs := negScalars(edges)
+	for i := 0; i < r.N(45, 1200); i++ {
+		var na *big.Int
+		if i < len(negs) && (i < 25 || r.Thorough()) {
+			na = negs[(i*5)%len(negs)]
+		} else {
+			na = negScalar(g, edges)
+		}
+		ng := genScalar(g, edges)
+		if i%3 == 1 {
+			ng = big.NewInt(0)
+		}
+		p := randPoint(g)
+		if i%5 == 0 {
+			p = G
+		}
+		r.Hit("ecmult/negative-na")
+		runCase(fmt.Sprintf("ecmult %s %s %s", jac(g, p, g.Bool()), intHex(na), intHex(ng)), "gen-negative")
 	}
 	// 6. the Lean reference group law (spec side of the theorems) against math/big
 	for i := 0; i < r.N(12, 200); i++ {
